@@ -42,6 +42,15 @@ def scenarios(tier: str) -> List[ConcScenario]:
     # the bin a resize is waiting for is untreeified by the lock holder
     S.append(ConcScenario('tree/untreeify-vs-resize', hasher='const', capacity=40, prefill=tree, setup_removes=[0, 1, 2], threads=[[('compute_none', 3)], [('reserve', 40)]], preemptions=(2 if th else 1), yield_loads=False))
     S.append(ConcScenario('tree/split-by-resize-vs-remove', hasher='split', capacity=40, prefill=list(range(10)), threads=[[('reserve', 40)], [('remove', 3)]], preemptions=(2 if th else 1), yield_loads=False))
+    # completing the matrix (operation that takes a bin lock) x (event that replaces the bin head while it waits): the pairs not
+    # covered above or by C03/C04/C05/C08/C10/C13
+    S.append(ConcScenario('tree/clear-vs-insert', hasher='const', capacity=40, prefill=tree, threads=[[('clear',)], [('insert', 12)]], preemptions=(2 if th else 1), yield_loads=False))
+    S.append(ConcScenario('list/remove-vs-clear', hasher='identity', capacity=2, prefill=[0, 4], threads=[[('remove', 4)], [('clear',)]], preemptions=p))
+    if th:
+        S.append(ConcScenario('tree/split-by-resize-vs-insert', hasher='split', capacity=40, prefill=list(range(10)), threads=[[('reserve', 40)], [('insert', 12)]], preemptions=1, yield_loads=False))
+        S.append(ConcScenario('treeify/insert-vs-clear', hasher='const', capacity=40, prefill=list(range(8)), threads=[[('insert', 8)], [('clear',)]], preemptions=2, yield_loads=False))
+        S.append(ConcScenario('tree/clear-vs-resize', hasher='split', capacity=40, prefill=list(range(10)), threads=[[('clear',)], [('reserve', 40)]], preemptions=1, yield_loads=False))
+        S.append(ConcScenario('treeify/insert-vs-resize', hasher='const', capacity=40, prefill=list(range(8)), threads=[[('insert', 8)], [('reserve', 40)]], preemptions=1, yield_loads=False))
     if th:
         S.append(ConcScenario('list/three-threads', hasher='identity', capacity=2, prefill=[0], threads=[[('insert', 4)], [('remove', 0)], [('get', 4)]], preemptions=2))
         S.append(ConcScenario('resize/three-threads', hasher='identity', capacity=1, prefill=[0], threads=[[('insert', 1)], [('insert', 2)], [('remove', 0)]], preemptions=2, yield_loads=False))
